@@ -648,7 +648,7 @@ def split_state(o: str):
 
 async def run_failures(corr: Corr):
     """Broker failures on connect / subscribe / publish surface as TransportError subclasses; a failed
-    connect can still be followed by disconnect."""
+    connect leaves no task behind."""
     ops, recs = [], []
     for script, label in [({"aenter": "MqttError"}, "aenter"), ({"subscribe": 0}, "subscribe-first"),
                           ({"subscribe": 3}, "subscribe-fourth"), ({"publish": "MqttError"}, "publish")]:
@@ -670,13 +670,15 @@ async def run_failures(corr: Corr):
                 corr.violate("write with a failing broker did not raise TransportFailedError", {**rec, "got": repr(r)})
             ops.append(f"write {enc('out')} {enc('1;2;1;0;2;on' + chr(10))} MqttError")
             recs.append((rec, "transportFailed"))
-        if label != "aenter":
+        # a connect that failed (at the broker connection or at a subscription) cleans up after itself
+        # (/repo commit dc58ea8); only a successful connect is followed by disconnect
+        if label == "publish":
             r = await guarded(tr.disconnect())
             if r[0] != "ok":
                 corr.violate("disconnect raised " + str(r[1] or r[0]), {**rec, "got": repr(r)})
         left = await leftover_tasks()
-        if left and label != "aenter":
-            corr.violate("tasks left running after disconnect", {**rec, "leftover": left})
+        if left:
+            corr.violate("tasks left running after a failed connect / after disconnect", {**rec, "leftover": left})
         corr.case(("failure", label), True, rec)
         corr.count("broker-failure-scripts")
     return ops, recs
